@@ -34,6 +34,7 @@ class ExecRecorder:
     def __init__(self):
         self.log = []            # [(uid, keyword)]
         self.current = None
+        self.last_read = None
         self.uids = 0
 
     def ident(self, c):
@@ -55,12 +56,28 @@ class ExecRecorder:
         from bert_e.reactor import Reactor, Command
         rec = cls()
         orig_hc = Reactor.handle_commands
+        # track which comment's text was read last (mock host comments and the stub comments)
+        from bert_e.git_host import mock as mockhost
+        orig_text = mockhost.CommentController.text
+
+        def tracked_text(self_):
+            rec.last_read = self_
+            return orig_text.fget(self_)
+        mockhost.CommentController.text = property(tracked_text)
+        mockhost.CommentController.text_untracked = property(lambda self_: orig_text.fget(self_))
+        StubComment.recorder = rec
 
         def handle_commands(self, job, text, prefix, privileged=False):
-            fr = sys._getframe(1)
-            c = fr.f_locals.get('comment')
-            if c is None or getattr(c, 'text', None) != text:
-                raise HarnessError('handle_commands was not called from a loop over `comment`')
+            # the comment being handled: the one whose text was read last (the loop reads comment.text and calls
+            # handle_commands); fall back on the caller's locals
+            c = rec.last_read
+            if c is None or getattr(c, 'text_untracked', None) != text:
+                fr = sys._getframe(1)
+                cands = [v for v in fr.f_locals.values()
+                         if hasattr(v, 'author') and getattr(v, 'text', None) == text]
+                if len(set(id(v) for v in cands)) != 1:
+                    raise HarnessError('handle_commands: cannot tell which comment is being handled')
+                c = cands[0]
             rec.current = c
             try:
                 return orig_hc(self, job, text, prefix, privileged)
@@ -119,8 +136,21 @@ class FindRecorder:
 
 # ------------------------------------------------------------------------------ pure stubs
 
-class StubComment(SimpleNamespace):
-    pass
+class StubComment:
+    recorder = None
+
+    def __init__(self, author, text, id):
+        self.author, self._text, self.id = author, text, id
+
+    @property
+    def text(self):
+        if StubComment.recorder is not None:
+            StubComment.recorder.last_read = self
+        return self._text
+
+    @property
+    def text_untracked(self):
+        return self._text
 
 
 class StubPR:
@@ -421,6 +451,10 @@ def possible_evaluations(world):
     return evs
 
 
+class _StopHistory(Exception):
+    pass
+
+
 class SysRun:
     """One history on one world, with the C10 monitors after every job.  fresh=True: a new BertE per job."""
 
@@ -430,6 +464,8 @@ class SysRun:
         self.p_inject = p_inject
         self.max_triples = max_triples
         self.triples = 0
+        self.stop_at = None       # wall-clock limit of the generating run (the history is cut there)
+        self.truncated = False
         self.irng = random.Random(inject_seed)
         self.events = []         # the explicit history: generator events + injected evaluations
         self.dumps = []          # projection after every job, in order
@@ -537,6 +573,9 @@ class SysRun:
             log = []
             for ev in events:
                 me.world = world
+                if me.stop_at is not None and time.time() > me.stop_at:
+                    me.truncated = True
+                    raise _StopHistory()
                 if ev['e'].startswith('job_'):
                     me.events.append(ev)
                     r, _d, _n = me.job(world, ev)
@@ -551,14 +590,24 @@ class SysRun:
                 me.after_event(world)
             return log
         histories.run_history = run_history
+        cfg = {}
+        orig_world = histories.sysworld.World
+
+        def world_factory(c=None, scratch=None):
+            cfg.update(c or {})
+            return orig_world(c, scratch)
+        histories.sysworld.World = world_factory
         try:
             if lifecycle:
-                h, _ = histories.lifecycle_and_run(seed)
+                histories.lifecycle_and_run(seed, n_prs=2 if length <= 8 else None)
             else:
-                h, _ = histories.generate_and_run(seed, length=length)
+                histories.generate_and_run(seed, length=length)
+        except _StopHistory:
+            pass
         finally:
             histories.run_history = orig
-        return {'cfg': h['cfg'], 'events': self.events, 'seed': seed}
+            histories.sysworld.World = orig_world
+        return {'cfg': dict(cfg), 'events': self.events, 'seed': seed}
 
     def replay(self, history):
         from . import sysworld
@@ -586,7 +635,7 @@ class SysRun:
 
 def history_pair(args):
     """Worker: the same history on the long-lived instance and with a fresh BertE per job."""
-    seed, length, per_state, replay_history, p_inject, max_triples, deadline = args
+    seed, length, per_state, replay_history, p_inject, max_triples, deadline, a_limit = args
     os.environ['PYTHONHASHSEED'] = '0'
     if deadline is not None and time.time() > deadline:
         return {'seed': seed, 'skipped': True}
@@ -597,6 +646,8 @@ def history_pair(args):
         FindRecorder.install()
         ExecRecorder.install()
         a = SysRun(False, per_state, seed * 7 + 1, p_inject, max_triples)
+        if a_limit:
+            a.stop_at = time.time() + a_limit
         if replay_history is not None:
             a.replay(replay_history)
             h = replay_history
@@ -606,6 +657,8 @@ def history_pair(args):
         b = SysRun(True, None, 0)
         b.replay({'cfg': h['cfg'], 'events': h['events']})
         out['jobs'] = a.jobs + b.jobs
+        if a.truncated:
+            a.count('histories_cut_at_time_limit')
         out['hist'] = a.hist
         out['nontrivial'] = sorted(a.nontrivial)
         out['violations'] = a.violations + [v for v in b.violations
